@@ -202,6 +202,15 @@ thread_local! {
     /// 0 = hooks return Ok, 1 = Err without span, 2 = Err with the preset span
     static MODE: Cell<u8> = const { Cell::new(0) };
     static PRESET: RefCell<Option<proc_macro2::Span>> = const { RefCell::new(None) };
+    /// what the hook was handed, as text
+    static ARG: RefCell<Option<String>> = const { RefCell::new(None) };
+}
+
+fn arg(text: String) {
+    ARG.with(|a| *a.borrow_mut() = Some(text));
+}
+fn toks<T: quote::ToTokens>(v: &T) -> String {
+    v.to_token_stream().to_string().chars().filter(|c| !c.is_whitespace()).collect()
 }
 
 fn hook<T>(name: &'static str, ok: T) -> darling::Result<T> {
@@ -224,13 +233,13 @@ fn hook<T>(name: &'static str, ok: T) -> darling::Result<T> {
 }
 
 macro_rules! probe_method {
-    ($t:ident, word) => { fn from_word() -> darling::Result<Self> { hook("word", $t) } };
-    ($t:ident, list) => { fn from_list(_items: &[NestedMeta]) -> darling::Result<Self> { hook("list", $t) } };
-    ($t:ident, bool) => { fn from_bool(_v: bool) -> darling::Result<Self> { hook("bool", $t) } };
-    ($t:ident, string) => { fn from_string(_v: &str) -> darling::Result<Self> { hook("string", $t) } };
-    ($t:ident, char) => { fn from_char(_v: char) -> darling::Result<Self> { hook("char", $t) } };
-    ($t:ident, value) => { fn from_value(_v: &syn::Lit) -> darling::Result<Self> { hook("value", $t) } };
-    ($t:ident, expr) => { fn from_expr(_v: &syn::Expr) -> darling::Result<Self> { hook("expr", $t) } };
+    ($t:ident, word) => { fn from_word() -> darling::Result<Self> { arg(String::new()); hook("word", $t) } };
+    ($t:ident, list) => { fn from_list(items: &[NestedMeta]) -> darling::Result<Self> { arg(items.iter().map(toks).collect::<Vec<_>>().join(",")); hook("list", $t) } };
+    ($t:ident, bool) => { fn from_bool(v: bool) -> darling::Result<Self> { arg(v.to_string()); hook("bool", $t) } };
+    ($t:ident, string) => { fn from_string(v: &str) -> darling::Result<Self> { arg(format!("{v:?}")); hook("string", $t) } };
+    ($t:ident, char) => { fn from_char(v: char) -> darling::Result<Self> { arg(format!("{v:?}")); hook("char", $t) } };
+    ($t:ident, value) => { fn from_value(v: &syn::Lit) -> darling::Result<Self> { arg(toks(v)); hook("value", $t) } };
+    ($t:ident, expr) => { fn from_expr(v: &syn::Expr) -> darling::Result<Self> { arg(toks(v)); hook("expr", $t) } };
 }
 macro_rules! probe {
     ($t:ident: $($h:ident)*) => {
@@ -423,6 +432,20 @@ fn routing_sweep(t: &mut Tally) {
                         if log != [h] {
                             bad(format!("hooks called: {log:?}, expected exactly [{h}]"), t);
                             continue;
+                        }
+                        // the hook is handed what was written: the value's tokens (suffix, radix,
+                        // sign and all), the list's items
+                        let written: String = match form {
+                            Form::Word => String::new(),
+                            Form::List => {
+                                let inner = text.trim_start_matches("v(").trim_end_matches(')').trim_end_matches(',');
+                                inner.chars().filter(|c| !c.is_whitespace()).collect()
+                            }
+                            _ => text.strip_prefix("v = ").unwrap_or(text).chars().filter(|c| !c.is_whitespace()).collect(),
+                        };
+                        let handed = ARG.with(|a| a.borrow_mut().take()).unwrap_or_default();
+                        if handed != written {
+                            bad(format!("the {h} hook was handed `{handed}`, the item says `{written}`"), t);
                         }
                         match (mode, &res) {
                             (0, Ok(())) => {}
